@@ -163,7 +163,8 @@ func verif_lemma_ip4_setpayload_sums_to_zero(p IP4, b []byte, protocol byte) {
 //
 //verif:props C15
 func verif_lemma_ip4_appendpayload_sums_to_zero(p IP4, b []byte, protocol byte) {
-	vRequires(len(p) == 20 && p[0] == 0x45 && len(b) <= 1480 && cap(p)-20 >= len(b))
+	vRequires(len(p) == 20 && p[0] == 0x45 && len(b) <= 1480)
+	vRequires(cap(p)-len(p) >= len(b)) // the payload fits
 	vRequires(spec_disjoint(b, p[:cap(p)]))
 	vFuel(11)
 	r, err := p.AppendPayload(b, protocol)
